@@ -14,8 +14,8 @@ pub static PROP: PropDef = PropDef {
     builds: opt_only,
     max_tape: 80,
     cases: |t| match t {
-        Tier::Quick => 40_000,
-        Tier::Thorough => 2_000_000,
+        Tier::Quick => 400_000,
+        Tier::Thorough => 6_000_000,
     },
     fixed: no_fixed,
     check,
